@@ -267,20 +267,28 @@ macro_rules! proofs {
     )*};
 }
 
-// @harness c20_find_n3 tier=quick unwind=6 block=128 mem=39 timeout=3600
-// @harness c20_find_n3_reach tier=quick unwind=6 block=128 mem=26 timeout=1800 twin
-// @harness c20_unite_n3 tier=quick unwind=6 block=128 mem=19 timeout=3331
-// @harness c20_unite_n3_reach tier=quick unwind=6 block=128 mem=19 timeout=1242 twin
-// @harness c20_clone_copy_n2 tier=quick unwind=5 block=128 mem=14 timeout=1463
-// @harness c20_clone_orig_n2 tier=quick unwind=5 block=128 mem=30 timeout=3271
-// @harness c20_clone_orig_n2_reach tier=quick unwind=5 block=128 mem=29 timeout=3600 twin
-// @harness c20_new tier=quick unwind=5 block=128 mem=8 timeout=1200
-// @harness c20_new_reach tier=quick unwind=5 block=128 mem=8 timeout=1200 twin
-// @harness c20_clone_copy_n3 tier=thorough unwind=6 block=128 mem=44 timeout=3600
-// @harness c20_clone_orig_n3 tier=thorough unwind=6 block=128 mem=44 timeout=3600
+// @harness c20_find_n2 tier=quick unwind=5 block=128 mem=19 timeout=1500
+// @harness c20_find_n2_reach tier=quick unwind=5 block=128 mem=19 timeout=1500 twin
+// @harness c20_find_n3 tier=thorough unwind=6 block=128 mem=27 timeout=2669
+// @harness c20_find_n3_reach tier=thorough unwind=6 block=128 mem=27 timeout=1984 twin
+// @harness c20_unite_n3 tier=quick unwind=6 block=128 mem=13 timeout=2339
+// @harness c20_unite_n2_reach tier=quick unwind=5 block=128 mem=10 timeout=1500 twin
+// @harness c20_unite_n3_reach tier=thorough unwind=6 block=128 mem=13 timeout=1200 twin
+// @harness c20_clone_copy_n2 tier=quick unwind=5 block=128 mem=10 timeout=1200
+// @harness c20_clone_orig_n2 tier=quick unwind=5 block=128 mem=21 timeout=1891
+// @harness c20_clone_copy_n2_reach tier=quick unwind=5 block=128 mem=10 timeout=1500 twin
+// @harness c20_clone_orig_n2_reach tier=thorough unwind=5 block=128 mem=21 timeout=2323 twin
+// @harness c20_new tier=quick unwind=5 block=128 mem=6 timeout=1200
+// @harness c20_new_reach tier=quick unwind=5 block=128 mem=6 timeout=1200 twin
+// @harness c20_clone_copy_n3 tier=thorough unwind=6 block=128 mem=44 timeout=3600 stretch
+// @harness c20_clone_orig_n3 tier=thorough unwind=6 block=128 mem=44 timeout=3600 stretch
 // @harness c20_find_n4 tier=thorough unwind=7 block=128 mem=44 timeout=3600 stretch
 // @harness c20_unite_n4 tier=thorough unwind=7 block=128 mem=48 timeout=3600 stretch
 proofs! {
+    c20_find_n2 => find_body::<2, 3>(false);
+    c20_find_n2_reach => find_body::<2, 3>(true);
+    c20_unite_n2_reach => unite_body::<2, 3>(true);
+    c20_clone_copy_n2_reach => clone_body::<2, 3, true>(true);
     c20_find_n3 => find_body::<3, 4>(false);
     c20_find_n3_reach => find_body::<3, 4>(true);
     c20_unite_n3 => unite_body::<3, 4>(false);
